@@ -26,7 +26,8 @@ ASSUMPTIONS = [
     "Entries on ignored chromosomes are dropped by Genome.get_intervals / get_locations; the model does the same.",
 ]
 REQUIRED_CLASSES = ["two-or-more-chromosomes", "ends-at-chromosome-end", "starts-at-0-of-next", "empty-chromosome", "prefix-names", "underscore-name",
-                    "keep_all", "minus-strand", "boundary-pair", "covered-run-through-a-whole-chromosome", "sort-names-of-unsorted-input"]
+                    "keep_all", "minus-strand", "boundary-pair", "covered-run-through-a-whole-chromosome", "sort-names-of-unsorted-input",
+                    "intervals-built-with-from_fields"]
 BOUNDS = {"quick": "exhaustive GlobalOffset bijection for every generated genome; 2000 sampled genomes with sizes up to 12",
           "thorough": "48000 sampled genomes with sizes up to 40"}
 BUDGET_S = {"quick": 200, "thorough": 1500}
@@ -56,6 +57,8 @@ def classify(case):
         cl.append("prefix-names")
     if any("_" in n for n, _ in case["genome"]):
         cl.append("underscore-name")
+    if case.get("from_fields") and case["ivs"]:
+        cl.append("intervals-built-with-from_fields")
     if case.get("sort_names") and [n for n, _ in case["genome"]] != sorted(n for n, _ in case["genome"]):
         cl.append("sort-names-of-unsorted-input")
     per = {n: [] for n in names}
@@ -124,8 +127,18 @@ def check(case, stats=None):
 
     rows_of = _rows_of
 
-    gi = guard("get_intervals", lambda: genome.get_intervals(mk(ivs_all, False)))
-    gis = guard("get_intervals", lambda: genome.get_intervals(mk(ivs_all, True), stranded=True))
+    if case.get("from_fields") and ivs_all:
+        # the other constructor: GenomicIntervals.from_fields(genome context, columns); entries on ignored chromosomes are dropped here too
+        from bionumpy.genomic_data.genomic_intervals import GenomicIntervals
+        from bionumpy.string_array import as_string_array
+        ctx = genome.get_genome_context()
+        cols_ = ([r[0] for r in ivs_all], np.array([r[1] for r in ivs_all], dtype=int), np.array([r[2] for r in ivs_all], dtype=int))
+        gi = guard("from_fields", lambda: GenomicIntervals.from_fields(ctx, as_string_array(cols_[0]), cols_[1], cols_[2]))
+        gis = guard("from_fields", lambda: GenomicIntervals.from_fields(ctx, as_string_array(cols_[0]), cols_[1], cols_[2],
+                                                                        bnp.as_encoded_array("".join(r[3] for r in ivs_all), bnp.encodings.StrandEncoding)))
+    else:
+        gi = guard("get_intervals", lambda: genome.get_intervals(mk(ivs_all, False)))
+        gis = guard("get_intervals", lambda: genome.get_intervals(mk(ivs_all, True), stranded=True))
     if gi is None or gis is None:
         return out[:1]
     # the included entries, in input order
@@ -441,6 +454,8 @@ def c10_case(draw, Smax):
         case["fasta"] = draw(st.integers(1, 9))
     if draw(st.integers(0, 4)) == 0:
         case["sort_names"] = True
+    if draw(st.integers(0, 3)) == 0:
+        case["from_fields"] = True
     return case
 
 
